@@ -1,5 +1,6 @@
 import PoolProofs.C07LemmasModify
 import PoolProofs.C07LemmasClose
+import PoolProofs.C07LemmasDeposit
 
 /-!
 # C07 — deposits, withdrawals, renewals and closures conserve the account's funds
@@ -119,6 +120,161 @@ theorem C07_renew_conserves (so : ScriptOf) (hso : ScriptLen34 so) (a : Account)
   rw [heq] at h ⊢
   exact ⟨hs, hv, expiry_window _ _ hexp, modify_spec hso (by decide : Action.renew ≠ .close) hvau h⟩
 
+/-! ## closures -/
+
+/-- **C07_close_conserves**: an accepted closure spends the account outpoint as its only input, pays exactly the
+closing outputs of the fee expression (verbatim), records value 0 / pending-closed with the outpoint unchanged, and
+everything but the fee is paid out: `fee = old − Σ outputs ≥ 253·W/1000`, no output dust or negative.  For a
+single output with a fee rate (`OutputWithFee`, script given or wallet-derived), for EVERY script type
+`ParsePkScript` accepts, the output is `old − rate·W/1000` with `W` the full weight of the broadcast transaction. -/
+theorem C07_close_conserves (so : ScriptOf) (a : Account) (fe : FeeExpr) (ws : Bool → Script) (best : UInt32)
+    (f : Faults) (h : (close so a fe ws best f).refusal = none) :
+    ∃ (outs : List TxOut) (tx : Tx) (acct' : Account) (w : Nat) (pre : List Effect),
+      ¬ (a.state = StatePendingClosed ∨ a.state = StateClosed) ∧
+      fe.closeOutputs ws a.value (determineWitnessType a best) = .ok outs ∧
+      (close so a fe ws best f).tx = some tx ∧ (close so a fe ws best f).account = some acct' ∧
+      (close so a fe ws best f).trace = pre ++ [.storeWrite acct', .publish tx] ∧
+      pre.length ≤ 1 ∧ (∀ e ∈ pre, e.isModify = true) ∧
+      tx.inputs.map (·.prev) = [a.outPoint] ∧ tx.outputs.Perm outs ∧
+      acct'.value = 0 ∧ acct'.state = StatePendingClosed ∧ acct'.outPoint = a.outPoint ∧
+      witnessSize (determineWitnessType a best) = some w ∧
+      feeForWeight FeePerKwFloor (fullWeight tx w) ≤ a.value - sumValues outs ∧
+      (∀ o ∈ outs, isDustOutput o = false ∧ 0 ≤ o.value) ∧
+      (∀ s r, fe = .outputWithFee s r →
+        outs = [⟨a.value - feeForWeight r (fullWeight tx w), s.getD (ws (wtIsTaproot (determineWitnessType a best)))⟩]) ∧
+      (∀ os, fe = .implicit os → outs = os) := by
+  obtain ⟨hs, outs, ho, heq⟩ := close_inv h
+  rw [heq] at h ⊢
+  obtain ⟨mods', lock, pre, hloc, hlock, hsan, htx, hacct, htrace, hpre1, hpre2⟩ := spendAccount_ok h
+  have hm : mods' = [.value 0, .state StatePendingClosed] := by
+    rcases hloc with ⟨hne, _⟩ | ⟨_, hm⟩
+    · exact absurd rfl hne
+    · exact hm
+  subst hm
+  obtain ⟨_, _, hrange, _, hdust, inT, w, hin, hle, hfloor⟩ := sanityCheck_ok hsan
+  have hin' : sanityInputs a (determineWitnessType a best) [a.txIn so] 0 0 = .ok (inT, w) := hin
+  obtain ⟨hinT, hw⟩ := sanityInputs_single hin'
+  subst hinT
+  have hperm : (sortBy outLt outs).Perm outs := sortBy_perm _ _
+  have hsum : sumValues (sortBy outLt outs) = sumValues outs := sumValues_perm hperm
+  refine ⟨outs, _, _, w, pre, hs, ho, htx, hacct, htrace, hpre1, hpre2, ?_, hperm, ?_, ?_, ?_, hw, ?_, ?_, ?_, ?_⟩
+  · simp [createSpendTx, Account.txIn]
+  · simp [applyMods, Modifier.apply]
+  · simp [applyMods, Modifier.apply]
+  · simp [applyMods, Modifier.apply]
+  · have hf : feeForWeight FeePerKwFloor (fullWeight { createSpendTx so a outs with lockTime := lock } w)
+        ≤ a.value - sumValues (sortBy outLt outs) := hfloor
+    rw [hsum] at hf
+    exact hf
+  · intro o hmem
+    have hm : o ∈ sortBy outLt outs := hperm.mem_iff.mpr hmem
+    exact ⟨hdust o hm, (hrange o hm).1⟩
+  · intro s r hfe
+    subst hfe
+    simp only [FeeExpr.closeOutputs] at ho
+    obtain ⟨w', hw', hl, houts⟩ := owf_close_ok ho
+    have : w' = w := by rw [hw] at hw'; exact (Option.some.inj hw').symm
+    subst this
+    subst houts
+    rw [fullWeight_single_out _ hl]
+  · intro os hfe
+    subst hfe
+    simp only [FeeExpr.closeOutputs, Except.ok.injEq] at ho
+    exact ho.symm
+
+/-! ## deposits -/
+
+/-- **C07_deposit_conserves**: an accepted deposit spends the wallet's inputs plus the account input, all outpoints
+distinct (so the account outpoint exactly once); records `old + amount ≤ max`, version not lowered; the recorded
+outpoint designates an output with the new account script; no dust; total fee `Σ inputs − Σ outputs ≥ 253·W/1000`
+where `Σ inputs = old + Σ wallet inputs`.  Under the ASSUMPTION `FundOk` on lnd's `FundPsbt` (template output
+unchanged + optional change, inputs = template + change + lndFee): the outputs are exactly the re-created account
+output and the change, the total fee is `rate·(weight of the account input)/1000 + lndFee`, and
+`new = old + (Σ wallet inputs − change) − fee`. -/
+theorem C07_deposit_conserves (so : ScriptOf) (a : Account) (amount rate : Int) (best eh : UInt32) (nv : Nat)
+    (maxValue : Option Int) (fd : Option Funded) (f : Faults)
+    (h : (deposit so a amount rate best eh nv maxValue fd f).refusal = none) :
+    ∃ (maxV : Int) (fdv : Funded) (fee : Int) (tx : Tx) (acct' : Account) (idx : Nat) (pre : List Effect)
+      (inT : Int) (w : Nat),
+      maxValue = some maxV ∧ fd = some fdv ∧ acctInputFee (determineWitnessType a best) rate = .ok fee ∧
+      a.state = StateOpen ∧ a.version ≤ nv ∧
+      (eh ≠ 0 → best.toNat + 144 ≤ eh.toNat ∧ eh.toNat ≤ best.toNat + 52560) ∧
+      (deposit so a amount rate best eh nv maxValue fd f).tx = some tx ∧
+      (deposit so a amount rate best eh nv maxValue fd f).account = some acct' ∧
+      (deposit so a amount rate best eh nv maxValue fd f).trace = pre ++ [.storeWrite acct', .publish tx] ∧
+      pre.length ≤ 1 ∧ (∀ e ∈ pre, e.isModify = true) ∧
+      tx.inputs.Perm (fdv.inputs ++ [a.txIn so]) ∧ (tx.inputs.map (·.prev)).Nodup ∧
+      acct'.value = a.value + amount ∧ acct'.value ≤ maxV ∧ acct'.version = max a.version nv ∧
+      acct'.state = StatePendingUpdate ∧ acct'.batchCtr = a.batchCtr + 1 ∧
+      acct'.outPoint = ⟨selfHash, idx⟩ ∧ (∃ o, tx.outputs[idx]? = some o ∧ o.script = (acct'.output so).script) ∧
+      (∀ o ∈ tx.outputs, isDustOutput o = false ∧ 0 ≤ o.value) ∧
+      inT = a.value + (fdv.inputs.map (·.utxoValue)).sum ∧
+      feeForWeight FeePerKwFloor (fullWeight tx w) ≤ inT - sumValues tx.outputs ∧
+      (∀ change lndFee, FundOk fdv (acct'.output so).script (amount + fee) change lndFee →
+        tx.outputs.Perm (acct'.output so :: change) ∧
+        inT - sumValues tx.outputs = fee + lndFee ∧
+        acct'.value = a.value + ((fdv.inputs.map (·.utxoValue)).sum - sumValues change) - (fee + lndFee)) := by
+  obtain ⟨hs, hv, maxV, ne, tx0, hmax, hle, hne, htx0, heq⟩ := deposit_inv h
+  rw [heq] at h ⊢
+  obtain ⟨mods', lock, pre, hloc, hlock, hsan, htx, hacct, htrace, hpre1, hpre2⟩ := spendAccount_ok h
+  obtain ⟨hnew, hval, hctr, hexp, hver, hst, hop⟩ := cnao_fields so a (a.value + amount) ne nv
+  have hloc' : ∃ idx, locateScript ((applyMods a ((createNewAccountOutput so a (a.value + amount) ne nv).2
+      ++ [.state StatePendingUpdate])).output so).script tx0.outputs = some idx ∧
+      mods' = (createNewAccountOutput so a (a.value + amount) ne nv).2 ++ [.state StatePendingUpdate]
+        ++ [.outPoint idx] := by
+    rcases hloc with ⟨_, idx, hl, hm⟩ | ⟨hc, _⟩
+    · exact ⟨idx, hl, hm⟩
+    · exact absurd hc (by decide)
+  obtain ⟨idx, hl, hm⟩ := hloc'
+  have hlock0 : lock = 0 := by
+    rcases hlock with ⟨_, hc, _⟩ | ⟨_, h0⟩
+    · exact absurd hc (by decide)
+    · exact h0
+  subst hlock0 hm
+  obtain ⟨fee, fdv, outs, hfee, hfd, hfix, htxeq⟩ := inputsForDeposit_ok htx0
+  obtain ⟨_, _, hrange, hnodup, hdust, inT, w, hin, _, hfloor⟩ := sanityCheck_ok hsan
+  generalize hnewdef : (createNewAccountOutput so a (a.value + amount) ne nv).1 = newOut at *
+  generalize hmsdef : (createNewAccountOutput so a (a.value + amount) ne nv).2 = ms at *
+  rw [output_state_irrelevant, ← hnew] at hl
+  have hstored := stored_fields a ms StatePendingUpdate idx best
+  rw [hstored] at hacct htrace
+  have htx0l : ({ tx0 with lockTime := 0 } : Tx) = tx0 := by rw [htxeq]
+  rw [htx0l] at hsan htx htrace hfloor
+  have hpin : tx0.inputs.Perm (fdv.inputs ++ [a.txIn so]) := by rw [htxeq]; exact sortBy_perm _ _
+  have hnd : (tx0.inputs.map (·.prev)).Nodup := hasDup_false_nodup hnodup
+  have hnd' : ((fdv.inputs ++ [a.txIn so]).map (·.prev)).Nodup := (hpin.map _).nodup_iff.mp hnd
+  have hinT : inT = a.value + (fdv.inputs.map (·.utxoValue)).sum := by
+    have h1 := sanityInputs_total hin
+    have h2 : (tx0.inputs.map (inVal a)).sum = ((fdv.inputs ++ [a.txIn so]).map (inVal a)).sum :=
+      sum_map_perm _ hpin
+    rw [h1, h2, List.map_append, List.sum_append, wallet_inVal hnd']
+    simp [inVal, Account.txIn]; omega
+  have hpout : tx0.outputs.Perm outs := by rw [htxeq]; exact sortBy_perm _ _
+  have hnewout : newOut = Account.output so
+      { applyMods a ms with state := StatePendingUpdate, outPoint := ⟨selfHash, idx⟩, heightHint := best } := by
+    rw [hnew]; simp [Account.output]
+  refine ⟨maxV, fdv, fee, tx0, _, idx, pre, inT, w, hmax, hfd, hfee, hs, hv, optExpiry_window hne expiry_window, htx,
+    hacct, htrace, hpre1, hpre2, hpin, hnd, hval, ?_, hver, rfl, hctr, rfl, ?_, ?_, hinT, hfloor, ?_⟩
+  · show (applyMods a ms).value ≤ maxV
+    rw [hval]; exact hle
+  · rw [← hnewout]; exact locateScript_some hl
+  · intro o ho; exact ⟨hdust o ho, (hrange o ho).1⟩
+  · intro change lndFee hfo
+    rw [← hnewout] at hfo ⊢
+    have hnv : newOut.value = a.value + amount := by rw [hnew]; exact hval
+    have hp := fixup_fundOk hfo hfix
+    have hp2 : tx0.outputs.Perm (newOut :: change) := by
+      have : (⟨newOut.value, newOut.script⟩ : TxOut) = newOut := rfl
+      rw [this] at hp
+      exact hpout.trans hp
+    have hsum : sumValues tx0.outputs = newOut.value + sumValues change := by
+      rw [sumValues_perm hp2]; simp
+    obtain ⟨_, hfunds, _⟩ := hfo
+    refine ⟨hp2, ?_, ?_⟩
+    · rw [hinT, hsum, hnv, hfunds]; omega
+    · show (applyMods a ms).value = _
+      rw [hval, hfunds]; omega
+
 /-! ## refusals -/
 
 /-- **C07_refusals_no_effect**: if an operation leaves ANY effect (auctioneer request, store write or broadcast),
@@ -191,5 +347,37 @@ theorem C07_refusals_no_effect (so : ScriptOf) (a : Account) (best : UInt32) (f 
     obtain ⟨_, _, hrange, _, hdust, _⟩ := sanityCheck_ok hsan
     exact ⟨hs, hv, optExpiry_window hne expiry_window, ⟨maxV, hmax, hle⟩, ne, tx, htx,
       fun o ho => ⟨hdust o ho, (hrange o ho).1⟩⟩
+
+/-! ## non-vacuity: concrete accepted operations (evaluated by the kernel) -/
+
+def exSo : ScriptOf := fun v _ c => 0x00 :: 0x20 :: List.replicate 32 (UInt8.ofNat (v + c))
+def exAcct : Account :=
+  { value := 1000000, expiry := 801000, state := 3, version := 0, batchCtr := 0, outPoint := ⟨[1, 2, 3], 0⟩ }
+def exOut : TxOut := ⟨200000, 0x00 :: 0x14 :: List.replicate 20 7⟩
+def exP2PKH : Script := [0x76, 0xa9, 0x14] ++ List.replicate 20 9 ++ [0x88, 0xac]
+def exFunded : Funded :=
+  { inputs := [⟨⟨[9, 9], 1⟩, 600000, 0x00 :: 0x14 :: List.replicate 20 5, 0⟩],
+    outputs := [⟨500000 + 110, exSo 0 801000 1⟩, ⟨99000, 0x00 :: 0x14 :: List.replicate 20 6⟩], changeIdx := 1 }
+
+example : ScriptLen34 exSo := by intro v e c; simp [exSo]
+set_option maxRecDepth 100000 in
+example : (withdraw exSo exAcct [exOut] 253 800000 0 1 {}).refusal = none := by decide
+set_option maxRecDepth 100000 in
+example : (renew exSo exAcct 810000 300 800000 0 {}).refusal = none := by decide
+set_option maxRecDepth 100000 in
+example : (close exSo exAcct (.outputWithFee (some exP2PKH) 1000) (fun _ => []) 800000 {}).refusal = none := by decide
+set_option maxRecDepth 100000 in
+example : (close exSo { exAcct with state := 4 } (.implicit [⟨999000, exOut.script⟩]) (fun _ => []) 801000 {}).refusal
+    = none := by decide
+set_option maxRecDepth 100000 in
+example : (deposit exSo exAcct 500000 253 800000 0 0 (some 10000000) (some exFunded) {}).refusal = none := by decide
+set_option maxRecDepth 100000 in
+example : FundOk exFunded (exSo 0 801000 1) (500000 + 110) [⟨99000, 0x00 :: 0x14 :: List.replicate 20 6⟩] 890 := by
+  refine ⟨Or.inr (Or.inr ⟨rfl, _, rfl, rfl⟩), by decide, by decide⟩
+-- a withdrawal with a dust output is refused without effect; one with an auctioneer fault leaves only the request
+set_option maxRecDepth 100000 in
+example : (withdraw exSo exAcct [⟨293, exOut.script⟩] 253 800000 0 0 {}).trace.length = 0
+    ∧ (withdraw exSo exAcct [exOut] 253 800000 0 0 { auctioneer := true }).trace.length = 1
+    ∧ (withdraw exSo exAcct [exOut] 253 800000 0 0 {}).trace.length = 3 := by decide
 
 end Pool.C07
